@@ -1,0 +1,40 @@
+//go:build verif
+
+package dhcp4_spoofer
+
+import (
+	"net/netip"
+	"sort"
+	"time"
+)
+
+// VerifLease is a copy of the observable part of one lease table entry.
+type VerifLease struct {
+	ClientID   []byte
+	MAC        []byte
+	IP         netip.Addr
+	Offer      netip.Addr
+	State      int
+	XID        []byte
+	Name       string
+	Subnet     string
+	DHCPExpiry time.Time
+	Text       string // Lease.String()
+}
+
+// VerifLeases returns a copy of the lease table (sorted by client id) taken under the handler lock.
+func (h *Handler) VerifLeases() []VerifLease {
+	h.Lock()
+	defer h.Unlock()
+	out := make([]VerifLease, 0, len(h.table))
+	for _, l := range h.table {
+		v := VerifLease{ClientID: append([]byte(nil), l.ClientID...), MAC: append([]byte(nil), l.Addr.MAC...), IP: l.Addr.IP, Offer: l.IPOffer,
+			State: int(l.State), XID: append([]byte(nil), l.XID...), Name: l.Name, DHCPExpiry: l.DHCPExpiry, Text: l.String()}
+		if l.subnet != nil {
+			v.Subnet = l.subnet.ID
+		}
+		out = append(out, v)
+	}
+	sort.Slice(out, func(i, j int) bool { return string(out[i].ClientID) < string(out[j].ClientID) })
+	return out
+}
